@@ -85,7 +85,8 @@ class _Canonical(ast.NodeTransformer):
     (l) `if a: if b: X` -> `if a and b: X`;
     (m) `if a: r = X elif b: r = Y else: ...` followed by `return r` -> every arm returns what it assigned;
     (o) `(A if c else B).m(args)` as a statement -> `if c: A.m(args) else: B.m(args)`;
-    (p) `xs = []` followed at once by `for T in IT: [if C:] xs.append(E)` -> `xs = [E for T in IT if C]` (sets, dicts alike)."""
+    (p) `xs = []` followed at once by `for T in IT: [if C:] xs.append(E)` -> `xs = [E for T in IT if C]` (sets, dicts alike);
+    (q) `if k not in d: d[k] = <empty collection>` -> `d.setdefault(k, <empty collection>)`."""
 
     _OPS = (ast.Add, ast.Sub, ast.Mult, ast.BitOr, ast.BitAnd, ast.FloorDiv)
 
@@ -301,6 +302,9 @@ class _Canonical(ast.NodeTransformer):
         cond: Optional[ast.expr] = None
         if len(body) == 1 and isinstance(body[0], ast.If) and not body[0].orelse and len(body[0].body) == 1:
             cond, body = body[0].test, body[0].body
+        elif len(body) == 2 and isinstance(body[0], ast.If) and not body[0].orelse and len(body[0].body) == 1 and isinstance(body[0].body[0], ast.Continue):
+            # the guard spelling: `if skip: continue` then the one statement that collects
+            cond, body = ast.copy_location(ast.UnaryOp(op=ast.Not(), operand=body[0].test), body[0].test), body[1:]
         if len(body) != 1:
             return None
         b = body[0]
@@ -417,6 +421,17 @@ class _Canonical(ast.NodeTransformer):
                         self.rewrites += 1
                         out.append(ast.copy_location(ast.Return(value=st.value), st))
                         i += 2
+                        continue
+                    # (q) `if k not in d: d[k] = V` (V a fresh empty collection) -> `d.setdefault(k, V)`
+                    if (isinstance(st, ast.If) and not st.orelse and len(st.body) == 1 and isinstance(st.test, ast.Compare) and len(st.test.ops) == 1 and isinstance(st.test.ops[0], ast.NotIn)
+                            and isinstance(st.body[0], ast.Assign) and len(st.body[0].targets) == 1 and isinstance(st.body[0].targets[0], ast.Subscript)
+                            and norm(st.body[0].targets[0].value) == norm(st.test.comparators[0]) and norm(st.body[0].targets[0].slice) == norm(st.test.left)
+                            and ((isinstance(st.body[0].value, (ast.List, ast.Dict, ast.Set)) and not getattr(st.body[0].value, 'elts', getattr(st.body[0].value, 'keys', []))) or (isinstance(st.body[0].value, ast.Call) and norm(st.body[0].value) in ('set()', 'dict()', 'list()')))
+                            and not any(isinstance(x, (ast.Call, ast.Await)) for x in ast.walk(st.test.left))):
+                        self.rewrites += 1
+                        callx = ast.Call(func=ast.Attribute(value=st.test.comparators[0], attr='setdefault', ctx=ast.Load()), args=[st.test.left, st.body[0].value], keywords=[])
+                        out.append(ast.fix_missing_locations(ast.copy_location(ast.Expr(value=ast.copy_location(callx, st)), st)))
+                        i += 1
                         continue
                     # (p) `xs = []` + `for T in IT: [if C:] xs.append(E)` -> `xs = [E for T in IT if C]` (set / dict alike)
                     comp = self._collect_loop(st, nx)
